@@ -303,6 +303,65 @@ def main(ck):
     ck.cov["autoload_calls"] = nauto
     ck.cov["autoload_calls_failed"] = nauto_bad
 
+    # ---------------------------------------------------------------- (v) request-level TempVMs under concurrency
+    # every goroutine but the last runs on ITS OWN TempVM of the shared base (what HotHandler does per request): its
+    # results must equal the sequential TempVM model of C12 for that request alone; the last goroutine works on the base
+    # with disjoint names.  Run on the plain and the -race binary.
+    CPT = "[(\"App\\P\", {| cfile := 1000; cdefs := [(true, \"App\\P\")] |}); (\"App\\Q\", {| cfile := 1001; cdefs := [(false, \"App\\Q\")] |}); (\"App\\S\", {| cfile := 1002; cdefs := [(true, \"App\\S\")] |})]"
+    tcfgs = []
+    if not ck.replay:
+        for (n, g) in ([(3, 4), (6, 16), (4, 1)] if ck.tier == "quick" else [(n, g) for n in (2, 4, 8, 16) for g in (1, 4, 16)]):
+            ths = []
+            fid = [1]
+            for _ in range(n):
+                t = []
+                for _ in range(rng.randint(3, 7)):
+                    r = rng.random()
+                    if r < 0.45:
+                        t.append({"op": "add", "kind": rng.choice("cif"), "name": rng.choice(["T", "t", "U"]), "file": fid[0]})
+                        fid[0] += 1
+                    else:
+                        t.append({"op": rng.choice(["goc", "goi", "pkg"]), "name": rng.choice(["App\\P", "App\\Q", "App\\S", "T", "U"])})
+                ths.append(t)
+            base = [{"op": "add", "kind": rng.choice("cif"), "name": rng.choice(["B1", "B2"]), "file": 900 + i} for i in range(5)]
+            tcfgs.append({"autoload": AUTO, "temps": [True] * n + [False], "threads": ths + [base], "gomaxprocs": g, "repeat": 20, "keepall": True})
+    elif json.load(open(ck.replay)).get("mode") == "temps":
+        tcfgs = [json.load(open(ck.replay))["case"]]
+
+    def coq_op12(o):
+        if o["op"] == "add":
+            return "OAdd (Temp 0) %s %s %d" % (KIND[o["kind"]], coq_string(o["name"]), o["file"])
+        return "%s (Temp 0) %s" % ({"goc": "OGetOrLoadClass", "goi": "OGetOrLoadIface", "pkg": "OLoadPkg"}[o["op"]], coq_string(o["name"]))
+    sterms, smap2 = [], []
+    for binx, what in ((binary, "results"), (racebin, "race")):
+        if not tcfgs:
+            break
+        touts, _, _ = run_lines([binx, "stress"], [json.dumps(c) for c in tcfgs])
+        for c, o in zip(tcfgs, touts):
+            if "worker_death" in o:
+                death_violation(ck, "temps", c, o["worker_death"])
+                continue
+            if o.get("race") or o.get("fatal") or o.get("exit", 0) != 0:
+                fns = sorted(set(re.findall(r"origami/([\w/]+)\.", " ".join(l for l in o.get("report", []) if l.startswith("ACCESS ")))))
+                ck.violation("race:temps:%s" % "+".join(fns[:3]), {"mode": "temps", "case": c, "impl_out": {k: o.get(k) for k in ("exit", "race", "fatal", "report")},
+                                                                  "clause": "no crash / no data race while requests run on their own TempVMs"})
+                continue
+            if what != "results":
+                continue
+            for run in ((o.get("alls") or [[]])[0] or [])[:6]:
+                for ti, (ops, rs) in enumerate(zip(c["threads"], run)):
+                    if not c["temps"][ti]:
+                        continue
+                    sterms.append("(%s, %s, %s)" % (CPT, coq_list(coq_op12(x) for x in ops), coq_list(coq_obs(r) for r in rs)))
+                    smap2.append((c, ti, rs))
+    if sterms:
+        sb = ck.eval_cases("solo", HEADER, sterms, "check_solo", shard=max(50, len(sterms) // 8 + 1))
+        for j, cls in sorted(sb.items()):
+            c, ti, rs = smap2[j]
+            ck.violation("temps:request-differs-from-solo-run", {"mode": "temps", "case": c, "impl_out": {"thread": ti, "results": rs},
+                                                                "clause": "a request on its own TempVM got results that differ from the same request run alone (C12 isolation, under concurrency)"})
+    ck.cov["tempvm_requests_checked"] = len(sterms)
+
     # recorded histories (stamps): small ones searched for a linearization, big ones checked for the consequences
     hist_small, hist_big = [], []
     if not ck.replay:
